@@ -560,7 +560,7 @@ func init() {
 		}); err != nil {
 			return err
 		}
-		l4proxy.VerifHook = healthHook
+		l4proxy.SetVerifHook(healthHook)
 		lw, err := vh.NewLineWriter(*out)
 		if err != nil {
 			return err
